@@ -58,6 +58,10 @@ def plans(draw):
     kind = draw(st.sampled_from(['reset', 'reset', 'silent'])) if stack == 'thriftmux' else draw(st.sampled_from(['reset', 'reset', 'hang']))
     if mode == 'staggered' and kind == 'hang':
       kind = 'reset'      # endpoints that go on hanging while others are back make calls time out legitimately
+    if mode == 'shared' and kind == 'reset' and draw(st.sampled_from([False, False, True])):
+      # the host is gone: live connections are reset and new connects go unanswered until they give up with ETIMEDOUT
+      # (after blackhole_s seconds, longer than the maximum retry interval)
+      kind = 'blackhole'
     phases.append([start, start + dur, kind])
     t = start + dur
   stagger = draw(st.sampled_from([7000, 20000])) if mode == 'staggered' else 0
@@ -65,7 +69,10 @@ def plans(draw):
   affected = None
   if mode == 'partial':
     affected = sorted(draw(st.lists(st.sampled_from(ports), min_size=1, max_size=nports - 1, unique=True)))
+  blackhole_s = {10: 15, 60: 75}[res[1]]
   end = t + (res[1] + 8) * 1000 + stagger * (nports - 1) + (70 * period if (stagger or affected) else 0)
+  if any(k == 'blackhole' for _, _, k in phases):
+    end += blackhole_s * 1000
   close_at = draw(st.one_of(st.none(), st.none(), st.integers(1000, end)))
   refuse_delay = draw(st.sampled_from([None, None, 400, 900]))
   close_on_connect = None
@@ -81,6 +88,7 @@ def plans(draw):
           'ports': ports, 'period_ms': period, 'phases': phases, 'end_ms': end, 'close_at': close_at,
           'pool_max': draw(st.sampled_from([None, 1, 2])) if stack == 'thrift' else None,
           # two callers issue their calls at the same instants: the second needs a further pooled connection
+          'blackhole_s': blackhole_s,
           'pairs': False}
 
 
@@ -108,6 +116,9 @@ def to_world(plan):
       elif kind == 'hang':
         tl.append([start, 'hang'])
         tl.append([stop, 'unhang'])
+      elif kind == 'blackhole':
+        tl.append([start, ['blackhole', plan.get('blackhole_s', 15)]])
+        tl.append([stop, 'up'])
       else:
         tl.append([start, 'silent'])
         tl.append([stop, 'unsilent'])
@@ -311,6 +322,9 @@ def execute(plan):
           if b < a - 0.05:
             raise Violation(ID, 'backoff-not-monotone', '%s: gap %.2f s after gap %.2f s' % (where, b, a))
         slow = (plan.get('refuse_delay_ms') or 0) / 1000.0
+        if kind == 'blackhole':
+          slow = plan.get('blackhole_s', 15)      # an attempt takes that long to fail
+          flags.add('reconnect_attempts_time_out')
         for g in gaps:
           if g > max_w + 1.0 + slow:
             raise Violation(ID, 'backoff-above-max', '%s: gap %.2f s' % (where, g))
